@@ -19,7 +19,9 @@
 // at most one mutex held at a time, no relock of a held mutex).
 #include <simgrid/s4u.hpp>
 #include "src/verif_hooks.hpp"
+#include <chrono>
 #include <cstdio>
+#include <mutex>
 #include <iostream>
 #include <memory>
 #include <sstream>
@@ -183,8 +185,20 @@ static void run_cv(Scn& sc, size_t a, const std::vector<std::string>& ops)
       int res = 0;
       if (k == 'W')
         sc.cvs[v]->wait(sc.mutexes[v]);
-      else if (k == 'F')
-        res = sc.cvs[v]->wait_for(sc.mutexes[v], tmo(arg)) == std::cv_status::timeout;
+      else if (k == 'F') {
+        // all the entry points of wait_for in turn: (MutexPtr, double), (unique_lock, double), (unique_lock, std::chrono duration)
+        int entry = (i + (int)a) % 3;
+        if (entry == 0) {
+          res = sc.cvs[v]->wait_for(sc.mutexes[v], tmo(arg)) == std::cv_status::timeout;
+        } else {
+          std::unique_lock<sg4::Mutex> ul(*sc.mutexes[v], std::adopt_lock);
+          if (entry == 1)
+            res = sc.cvs[v]->wait_for(ul, tmo(arg)) == std::cv_status::timeout;
+          else
+            res = sc.cvs[v]->wait_for(ul, std::chrono::duration<double>(tmo(arg))) == std::cv_status::timeout;
+          ul.release(); // the script unlocks through the MutexPtr
+        }
+      }
       else
         res = sc.cvs[v]->wait_until(sc.mutexes[v], (arg[0] == '+' ? clk() : 0.0) + std::stoi(arg) * UNIT) == std::cv_status::timeout;
       printf("%d A %zu %c %d %d %.17g %d\n", i, a, k, v, res, clk(), sc.mutexes[v]->get_owner() == self ? 1 : 0);
